@@ -28,7 +28,7 @@ const wordInv = 244002641 // wordMul * wordInv == 1 (mod 2^32)
 
 type StreamSpec struct {
 	Bytes  []int  `json:"bytes"` // kind "bytes": explicit content (then zeros)
-	Kind   string `json:"kind"` // self | const | periodic | seeded | bytes
+	Kind   string `json:"kind"`  // self | const | periodic | seeded | bytes
 	Byte   int    `json:"byte"`
 	Period []int  `json:"period"`
 	Seed   int64  `json:"seed"`
@@ -41,7 +41,7 @@ type ReaderSpec struct {
 	Size     int    `json:"size"`
 	Seed     int64  `json:"seed"`
 	FailAt   int64  `json:"failAt"`   // byte offset at which the source fails (-1: never)
-	FailKind string `json:"failKind"` // eof | custom | partial | unexpected | transient (one failed Read, then the source recovers)
+	FailKind string `json:"failKind"` // eof | custom | partial | unexpected | temporary (error with Temporary() = true) | transient / temptransient (one failed Read, then the source recovers)
 	DelayUs  int    `json:"delayUs"`  // random sleep (0..DelayUs) inside Read, after the bytes are taken
 	Splits   []int  `json:"splits"`   // policy "script": k-th Read returns Splits[k]/SplitC of a sample (TLC-simulated short reads)
 	SplitC   int    `json:"splitC"`
@@ -49,9 +49,12 @@ type ReaderSpec struct {
 }
 
 type ItemPlan struct {
-	Pass  int    `json:"pass"`  // number of samples that pass
-	Hist  [10]int `json:"hist"` // Q histogram over the s samples
-	QMode string `json:"qmode"` // center | edge | edgehi
+	Pass  int     `json:"pass"`  // number of samples that pass
+	Hist  [10]int `json:"hist"`  // Q histogram over the s samples
+	QMode string  `json:"qmode"` // center | edge | edgehi
+	// FailBin > 0: the failing samples are those whose Q lies in bin FailBin (as far as there are enough), so a
+	// failing sample carries a Q value well away from 0 (two-sided items: P small, Q near 1)
+	FailBin int `json:"failbin"`
 }
 
 type WJob struct {
@@ -67,7 +70,7 @@ type WJob struct {
 	RoundDelayUs int        `json:"roundDelayUs"`
 	LogReads     bool       `json:"logReads"`
 	NoMatrix     bool       `json:"noMatrix"`
-	Gate         string     `json:"gate"` // "" | barrier | straggler | order : schedule control inside the stub runners
+	Gate         string     `json:"gate"`  // "" | barrier | straggler | order : schedule control inside the stub runners
 	Order        []int      `json:"order"` // gate "order": completion order of the samples (from a TLC-simulated behaviour)
 	MustReject   bool       `json:"mustreject"`
 	Tag          string     `json:"tag"`
@@ -196,6 +199,18 @@ func (r *recorder) add(e Event) {
 // ---------------------------------------------------------------- reader
 var errCustom = errors.New("verif: injected source failure")
 
+// tempError is what sockets, pipes and device files return for EAGAIN / EINTR / a deadline: an error like any other
+// as far as the workflows' contract goes, but one that retry helpers like to treat specially.
+type tempError struct{}
+
+func (tempError) Error() string {
+	return "verif: injected temporary source failure (resource temporarily unavailable)"
+}
+func (tempError) Temporary() bool { return true }
+func (tempError) Timeout() bool   { return true }
+
+var errTemp error = tempError{}
+
 type obsReader struct {
 	mu      sync.Mutex
 	sp      *StreamSpec
@@ -271,7 +286,7 @@ func (r *obsReader) Read(p []byte) (int, error) {
 		}
 	}
 	// injected failure at byte offset FailAt
-	if r.rs.FailAt >= 0 && err == nil && r.rs.FailKind == "transient" {
+	if r.rs.FailAt >= 0 && err == nil && (r.rs.FailKind == "transient" || r.rs.FailKind == "temptransient") {
 		if !r.failed && r.off+int64(n) > r.rs.FailAt {
 			if r.off >= r.rs.FailAt {
 				n = 0
@@ -280,6 +295,9 @@ func (r *obsReader) Read(p []byte) (int, error) {
 			}
 			if n == 0 {
 				err = errCustom
+				if r.rs.FailKind == "temptransient" {
+					err = errTemp
+				}
 			}
 		}
 	} else if r.rs.FailAt >= 0 && err == nil {
@@ -328,6 +346,8 @@ func (r *obsReader) failErr() error {
 		return io.EOF
 	case "unexpected":
 		return io.ErrUnexpectedEOF
+	case "temporary":
+		return errTemp
 	default:
 		return errCustom
 	}
@@ -413,6 +433,21 @@ func buildPlan(j *WJob, info fnInfo) [][]planned {
 			}
 			plan[smp][k].q = q
 		}
+		if ip.FailBin > 0 && ip.FailBin < 10 {
+			var in, outb []int
+			for _, smp := range perm {
+				if bins[smp] == ip.FailBin {
+					in = append(in, smp)
+				} else {
+					outb = append(outb, smp)
+				}
+			}
+			ord := append(in, outb...) // failing samples first, taken from the requested bin
+			nf := s - ip.Pass
+			for n, smp := range ord {
+				plan[smp][k].pass = n >= nf
+			}
+		}
 	}
 	return plan
 }
@@ -482,10 +517,11 @@ func stubRunner(item int) randomness.TestFunc {
 }
 
 // park implements the two schedule families:
-//  barrier  : hold every worker at the start of its round until min(W, remaining samples) workers are parked,
-//             then release them together (simultaneous publishes into counters and result slots)
-//  straggler: the worker that received the first sample is held until every other sample has been judged
-//             (the decision must wait for it; its buffer must survive all the other reads)
+//
+//	barrier  : hold every worker at the start of its round until min(W, remaining samples) workers are parked,
+//	           then release them together (simultaneous publishes into counters and result slots)
+//	straggler: the worker that received the first sample is held until every other sample has been judged
+//	           (the decision must wait for it; its buffer must survive all the other reads)
 func (g *gateState) park(c *stubCtx, start int64) {
 	g.mu.Lock()
 	defer g.mu.Unlock()
